@@ -19,8 +19,11 @@ TAdd == /\ l <= N /\ Ev.e = "LAdd" /\ l' = l + 1 /\ Add(<<Ev.k, Ev.c>>) /\ nops'
         /\ bad' = Note(bad, First(Obs(lst')), "BAD")
 TRemove == /\ l <= N /\ Ev.e = "LRemove" /\ l' = l + 1 /\ Remove(Ev.k) /\ nops' = nops + 1
            /\ bad' = Note(bad, First(<< <<P(Ev.ret) = RemoveRes(Ev.k), "C20:NodeList.Remove returned wrong node">> >> \o Obs(lst')), "BAD")
+(* a panic raised by a legal call sequence is behaviour of the real code (driver: guarded()) *)
+TPanic == /\ l <= N /\ Ev.e = "Panic" /\ l' = l + 1 /\ UNCHANGED lvars
+          /\ bad' = Note(bad, "C20:the call panicked: " \o Ev.msg \o " (" \o Ev.where \o ")", "BAD")
 TDone == l = N + 1 /\ UNCHANGED tvars
-TNext == TReset \/ TAdd \/ TRemove \/ TDone
+TNext == TReset \/ TAdd \/ TRemove \/ TPanic \/ TDone
 TSpec == TInit /\ [][TNext]_tvars
 Good == bad = ""
 =============================================================================
